@@ -360,35 +360,13 @@ def confirm_columns(res, ob, which):
     sheets = [('.a .b{width:75rpx;color:red}', {'class_prefix': 'p'}), ('.中  .b>c{x:calc(1rpx + 2px) a b}', {'class_prefix': '文'}),
               ('@media (a){.x{y:z}}', {}), ('a{b:"\U0001F600" c}', {}), ('a{b:"é" c "\U0001F600\U0001F601" d}\n.\U0001F600{e:f}', {'class_prefix': 'p'}),
               ('\U0001F600{x:y}', {})]
+    sheets += [(c.rstrip(')}] '), o) for c, o in sheets if c.rstrip(')}] ') != c]       # blocks left open at the end of the input
     for css, opts in sheets:
-        req = [{'css': css, 'options': opts, 'source_map': True}]
-        r = common.replay(['css'], stdin=json.dumps(req))
-        out = json.loads(r.stdout)[0]
-        text = out.get('normal', '')
-        u16 = text.encode('utf-16-le')
-        src_lines = css.split('\n')
-        prevc = -1
-        for (dl, dc, sl, sc, name) in out.get('map', []):
-            tail = u16[dc * 2:].decode('utf-16-le', errors='ignore')
-            bad = dl != 0 or dc < prevc or dc * 2 > len(u16)
-            why = 'entry out of order / out of range'
-            prevc = dc
-            # an entry for a token that is copied (no name = not rewritten) must point at text that starts like its source
-            if not bad and name is None and sl < len(src_lines):
-                s16 = src_lines[sl].encode('utf-16-le')
-                stail = s16[sc * 2:].decode('utf-16-le', errors='ignore')
-                if stail and tail:
-                    a, b = stail[0], tail[0]
-                    same = a == b or (b in ')}]' and re.match(r'^([\[{(]|[-\w\\\u0080-\U0010ffff]+\()', stail)) or (a in '\'"' and b in '\'"') or (a.isspace() and b.isspace()) or a.lower() == b.lower()
-                    # a class name is rewritten without a name only if no prefix is configured; numbers may be re-spelled (+1 -> 1, .5 -> 0.5)
-                    renum = (a in '+-.0123456789' and b in '+-.0123456789')
-                    if not same and not renum and not a.isspace():
-                        bad, why = True, 'source token starts with %r but the output at the generated column starts with %r' % (stail[:6], tail[:6])
-            if bad:
-                res.violation({'engine': 'M', 'harness': 'columns/' + which, 'class': ob.cls},
-                              '%s: %s | sheet %r: entry (%d,%d)<-(%d,%d) %s in %r' % (which, ob.desc, css, dl, dc, sl, sc, why, text),
-                              {'css': css, 'options': opts})
-                return
+        why, text = cc.map_mismatch(css, opts)
+        if why:
+            res.violation({'engine': 'M', 'harness': 'columns/' + which, 'class': ob.cls},
+                          '%s: %s | sheet %r: %s in %r' % (which, ob.desc, css, why, text), {'css': css, 'options': opts})
+            return
     res.inconc('columns/%s: %s - model-level violation that does not show in the replayed source maps' % (which, ob.desc))
 
 
